@@ -35,6 +35,49 @@ def run(res, tier, seed, replay):
     if not pr.harness_ok:
         res.violation("build failed: " + pr.harness_err[-800:], {"obligation": "build"}, found_input=False)
         return
+    # inheritance graphs with allOf below the root of a base (nested objects, array items), in every declaration order:
+    # the entry of every type must not depend on the order (usedUserTypes apart: the recorded finding)
+    from . import c12 as M12
+    from .. import allofgen as AG
+    from .. import proj as P
+    import json as _json
+    groups = []
+    for name, types in M12.BASE_GRAPHS.items():
+        perms = M12.permutations_of(types, 24 if tier == "quick" else 120)
+        groups.append((name, [AG.to_jst(p, []) for p in perms]))
+    flat = [(g, d) for g, ds in groups for d in ds]
+    outs = C.run_sharded("harness", "fn", [P.run_line("out=json", [("a.jst", d.encode())]) for _, d in flat])
+    res.count(len(flat))
+    by = {}
+    for (g, d), o in zip(flat, outs):
+        by.setdefault(g, []).append((d, o))
+
+    def entries(o):
+        st, dd = P.parse(o)
+        if st != "ok":
+            return st, None
+        j = _json.loads(C.unhx(dd["json"]))
+
+        def strip(x):
+            if isinstance(x, dict):
+                return {k: strip(v) for k, v in x.items() if k not in ("usedUserTypes", "example")}
+            if isinstance(x, list):
+                return [strip(v) for v in x]
+            return x
+        return "ok", {k: _json.dumps(strip(v), sort_keys=True) for k, v in j.get("userTypes", {}).items()}
+
+    for g, lst in by.items():
+        s0, e0 = entries(lst[0][1])
+        for d, o in lst[1:]:
+            s1, e1 = entries(o)
+            if s1 != s0 or e1 != e0:
+                diff = [k for k in (e0 or {}) if (e1 or {}).get(k) != e0.get(k)]
+                res.violation("declaration order matters: the inheritance graph '%s' gives %s in one order of its TYPE directives and %s in another%s" % (
+                    g, s0, s1, (": the entries of %s differ" % ", ".join(diff[:4])) if diff else ""),
+                    {"first": lst[0][0], "second": d, "graph": g})
+                return
+            res.nontrivial(("graph-order", g, d))
+    res.notes["inheritance_graph_orders"] = {g: len(l) for g, l in by.items()}
     last, bad = GP.run(res, "C10", tier, seed, replay, pr, take, known_rule)
     for msg, rp, found in bad:
         res.violation("declaration order matters: " + msg, rp, found_input=found)
